@@ -81,12 +81,12 @@ partial def dumpLoop (stack : List DumpItem) (out : String) (budget : Nat) (gens
       | .trap n h => dumpLoop (.val n :: .text "," :: .val h :: .text "}" :: rest) (out ++ "T{") budget gens
       | .native id => dumpLoop rest (out ++ "P" ++ hexChars id.name) budget gens
       | .fn k r params body env mod =>
-        let ps := (listToVec params).getD []
+        let ps := (listToVec params).getD [] ++ r.restParam?.toList
         let items := (ps.foldr (fun p acc => match acc with
           | [] => [DumpItem.val p]
           | _  => DumpItem.val p :: DumpItem.text " " :: acc) [])
         dumpLoop (items ++ .text "]," :: .val body :: .text "," :: .val env :: .text "}" :: rest)
-          (out ++ "F{" ++ String.ofList k.name ++ "," ++ (if r then "1" else "0") ++ "," ++ hexChars mod ++ ",[") budget gens
+          (out ++ "F{" ++ String.ofList k.name ++ "," ++ (if r.restParam?.isSome then "1" else "0") ++ "," ++ hexChars mod ++ ",[") budget gens
 
 def dump (v : Val) : String := dumpLoop [.val v] "" 20000 []
 
